@@ -103,14 +103,14 @@ package state
 // C04: Teardown computes its readiness answer from the latest value it has seen: the one returned by
 // the conflict-retrying update when it had to mark the resource, the one it read otherwise.
 //@ func (coreWrapper).Teardown
-//@   props C04
+//@   props C03 C04
 //@   requires [wrapped] state.CoreState != nil && resourcePointer != nil
 //@   requires [opts-nonnil] forall i int :: 0 <= i && i < len(opts) ==> opts[i] != nil
 // (the third Metadata() call is the one in the return statement)
 //@   at Metadata #3
 //@     assert [readiness-from-latest-value] res == latestRes
 //@ func (coreWrapper).Teardown$1
-//@   props C04
+//@   props C03 C04
 //@   requires r != nil
 //@
 // C04: create-or-update. A refused Create ends the call with that error: the mutator has already been
@@ -123,3 +123,142 @@ package state
 //@   ensures [refusals-monotone] createRefusals >= old(createRefusals)
 //@   ensures [refused-create-is-reported] createRefusals > old(createRefusals) ==> result1 != nil
 //@   ensures [result-nonnil] result1 == nil ==> result0 != nil
+
+// ---------------------------------------------------------------------------
+// C03: blocking lifecycle helpers. The condition of WatchFor is evaluated by Matches; the ghost
+// variables record the event it was last asked about and its answer, so that the loops of the
+// helpers can be held to "every event received was tested, and the loop went on only because the
+// answer was no".
+//@ ghostvar lastTested Event
+//@ ghostvar lastAnswer bool
+//@ ghostvar lastTestFailed bool
+//@
+//@ func (*WatchForCondition).Matches
+//@   props C03
+//@   requires [cond] condition != nil
+//@   modifies lastTested, lastAnswer, lastTestFailed
+//@   ghost lastTested = event
+//@   ghost lastAnswer = result0
+//@   ghost lastTestFailed = (result1 != nil)
+//@   ensures [tested] lastTested == event && lastAnswer == result0 && lastTestFailed == (result1 != nil)
+//@   ensures [error-is-no-match] result1 != nil ==> !result0
+//@   ensures [event-type-filter] result0 && old(condition.EventTypes != nil) ==> old(exists i int :: 0 <= i && i < len(condition.EventTypes) && condition.EventTypes[i] == event.Type)
+//@   ensures [no-resource-never-matches] result0 ==> event.Resource != nil
+//@   ensures [finalizers-filter] result0 && condition.FinalizersEmpty ==> event.Type != Destroyed && len(mdOf(event.Resource).fins) == 0
+//@   ensures [phase-filter] result0 && condition.Phases != nil ==> (exists i int :: 0 <= i && i < len(condition.Phases) && condition.Phases[i] == mdOf(event.Resource).phase)
+//@   ensures [matches-when-nothing-denies] old(condition.Condition) == nil && event.Resource != nil &&
+//@     (condition.EventTypes == nil || (exists i int :: 0 <= i && i < len(condition.EventTypes) && condition.EventTypes[i] == event.Type)) &&
+//@     (!condition.FinalizersEmpty || (event.Type != Destroyed && len(mdOf(event.Resource).fins) == 0)) &&
+//@     (condition.Phases == nil || (exists i int :: 0 <= i && i < len(condition.Phases) && condition.Phases[i] == mdOf(event.Resource).phase))
+//@     ==> result0 && result1 == nil
+//@
+// WatchFor returns the first state satisfying its condition: every event it receives is put to
+// Matches, it goes on waiting only after a clean "no", and what it returns is the resource of the
+// event Matches said yes to.
+//@ func (coreWrapper).WatchFor
+//@   props C03
+//@   requires [wrapped] state.CoreState != nil && pointer != nil && ctx != nil
+//@   requires [conds-nonnil] forall i int :: 0 <= i && i < len(conditionFunc) ==> conditionFunc[i] != nil
+//@   modifies lastTested, lastAnswer, lastTestFailed
+//@   at Err #1
+//@     assume_result [err-after-done] result != nil
+//@   at backedge #2
+//@     assert [no-matching-event-skipped] lastTested == event && !lastAnswer && !lastTestFailed
+//@   ensures [returns-the-matching-state] result1 == nil ==> lastAnswer && !lastTestFailed && result0 == lastTested.Resource
+//@
+// TeardownAndDestroy reports success only once the resource is gone: the wait for the finalizers ends
+// on the first Destroyed event or the first Created/Updated event that shows an empty finalizer set
+// (none is skipped), "gone" is reported only for a Destroyed event, and success is a successful
+// Destroy call or that event.
+//@ ghostvar okDestroys int
+//@ ghostvar destroyedSeen int
+//@ iface CoreState.Destroy
+//@   modifies okDestroys
+//@   ensures [counts] okDestroys == old(okDestroys) + ite(result == nil, 1, 0)
+//@
+// (assumed: setting up a watch writes nothing the caller can see; events arrive over the channel)
+//@ iface CoreState.Watch
+//@   ensures [watch-set-up] true
+//@
+//@ func (coreWrapper).waitFinalizersEmpty
+//@   props C03
+//@   requires [wrapped] state.CoreState != nil && resourcePointer != nil && ctx != nil
+//@   modifies destroyedSeen
+//@   at Err #1
+//@     assume_result [err-after-done] result != nil
+//@   at backedge #1
+//@     assert [no-deciding-event-skipped] event.Type != Destroyed && event.Type != Errored &&
+//@       !((event.Type == Created || event.Type == Updated) && event.Resource != nil && len(mdOf(event.Resource).fins) == 0)
+//@   at return #3
+//@     ghost_here destroyedSeen = destroyedSeen + ite(event.Type == Destroyed, 1, 0)
+//@   at return #4
+//@     assert [wait-ends-on-empty-finalizers] (event.Type == Created || event.Type == Updated) && event.Resource != nil && len(mdOf(event.Resource).fins) == 0
+//@   ensures [gone-only-on-destroyed-event] result0 ==> destroyedSeen == old(destroyedSeen) + 1 && result1 == nil
+//@   ensures [seen-monotone] destroyedSeen >= old(destroyedSeen)
+//@
+//@ func (coreWrapper).TeardownAndDestroy
+//@   props C03
+//@   requires [wrapped] state.CoreState != nil && resourcePointer != nil && ctx != nil
+//@   requires [opts-nonnil] forall i int :: 0 <= i && i < len(opts) ==> opts[i] != nil
+//@   modifies okDestroys, destroyedSeen, okUpdates, hardSeen, lastGetPhase, latestRes
+//@   ensures [success-only-once-gone] result == nil ==> implements(state.CoreState, "TeardownAndDestroyer") ||
+//@     okDestroys == old(okDestroys) + 1 || destroyedSeen == old(destroyedSeen) + 1
+//@   at Destroy #1
+//@     assert [immediate-destroy-only-when-ready] ready
+//@
+// The goroutine behind a teardown-bound context: it goes on waiting only after an event that neither
+// shows the resource tearing down nor reports it destroyed nor reports a failed watch; each of its
+// exits (all of which cancel the context) has exactly that reason, or the parent context being done.
+// (assumed: Created/Updated events on a watch channel carry a resource)
+//@ type Event
+//@   assume_received [event-carries-resource] (self.Type == Created || self.Type == Updated) ==> self.Resource != nil
+//@ func (coreWrapper).ContextWithTeardown$1
+//@   props C03
+//@   assume [spawned] watchCh != nil && cancel != nil && ctx != nil
+//@   at backedge #1
+//@     assert [no-cancelling-event-skipped] ev.Type != Destroyed && ev.Type != Errored &&
+//@       !((ev.Type == Created || ev.Type == Updated) && mdOf(ev.Resource).phase == resource.PhaseTearingDown)
+//@   at return #2
+//@     assert [cancelled-on-teardown] (ev.Type == Created || ev.Type == Updated) && mdOf(ev.Resource).phase == resource.PhaseTearingDown
+//@   at return #3
+//@     assert [cancelled-on-destroy] ev.Type == Destroyed
+//@   at return #4
+//@     assert [cancelled-on-watch-failure] ev.Type == Errored
+//@
+//@ func (coreWrapper).ContextWithTeardown
+//@   props C03
+//@   requires [wrapped] state.CoreState != nil && resourcePointer != nil && ctx != nil
+//@   ensures [context-or-error] result1 == nil ==> result0 != nil
+//@
+// C04: the finalizer helpers and Modify are thin layers over the conflict-retrying update: an error
+// means no write went through, and at most one write is made per call.
+//@ func (coreWrapper).AddFinalizer
+//@   props C04
+//@   requires [wrapped] state.CoreState != nil && resourcePointer != nil
+//@   modifies okUpdates, hardSeen, lastGetPhase, latestRes
+//@   ensures [error-means-no-write] result != nil ==> okUpdates == old(okUpdates)
+//@   ensures [at-most-one-write] okUpdates <= old(okUpdates) + 1
+//@ func (coreWrapper).AddFinalizer$1
+//@   props C04
+//@   requires r != nil
+//@   ensures [mutator-succeeds] result == nil
+//@   ensures [all-requested-finalizers-present] forall j int :: 0 <= j && j < len(fins) ==> (exists i int :: 0 <= i && i < len(mdOf(r).fins) && mdOf(r).fins[i] == fins[j])
+//@   loop #1
+//@     invariant [request-unchanged] r != nil && fins == old(fins) && (forall j int :: 0 <= j && j < len(fins) ==> fins[j] == old(fins[j]))
+//@     invariant [added-so-far] forall j int :: 0 <= j && j <= rangeindex ==> (exists i int :: 0 <= i && i < len(mdOf(r).fins) && mdOf(r).fins[i] == fins[j])
+//@ func (coreWrapper).RemoveFinalizer
+//@   props C04
+//@   requires [wrapped] state.CoreState != nil && resourcePointer != nil
+//@   modifies okUpdates, hardSeen, lastGetPhase, latestRes
+//@   ensures [error-means-no-write] result != nil ==> okUpdates == old(okUpdates)
+//@   ensures [at-most-one-write] okUpdates <= old(okUpdates) + 1
+//@ func (coreWrapper).RemoveFinalizer$1
+//@   props C04
+//@   requires r != nil
+//@   ensures [mutator-succeeds] result == nil
+//@ func (coreWrapper).Modify
+//@   props C04
+//@   requires [wrapped] state.CoreState != nil && emptyResource != nil && updateFunc != nil
+//@   requires [opts-nonnil] forall i int :: 0 <= i && i < len(options) ==> options[i] != nil
+//@   modifies createRefusals, okUpdates, hardSeen, lastGetPhase, latestRes
+//@   ensures [refused-create-is-reported] createRefusals > old(createRefusals) ==> result != nil
